@@ -33,13 +33,16 @@ theorem nextPacket_surfaces (d : Demux) (size f : Nat) (hs : d.packetSize = some
   simp only [hs]
   exact (read_fault_surfaced d size _ f hf h1 h2 h3).1
 
-/-- structural fact regenerated from the source: the only `return …, nil` statements inside functions that write
-through a BitsWriterBatch are the two that come after an explicit check of the batch error or before any body write
-(writeDescriptor's early return for an empty body, writePSIData's final return); in particular the one-byte stuffing
-path of writePacketAdaptationField returns the batch error -/
-theorem batch_errors_returned :
-    Generated.Facts.batchNilReturns =
-      ["writeDescriptor: return written after 2 batch writes", "writePSIData: return bytesWritten after 2 batch writes"] := by
+/-- structural fact regenerated from the source: no function that writes through a BitsWriterBatch (one it creates
+or one it receives) returns a literal `nil` error without having tested the batch error after its last batch write.
+The translator (extract/exprs.go, `batchNilReturnsUnchecked`) lists every `return …, nil` of such a function that has
+a batch write (a call of any method of the batch other than `Err`, or passing the batch on) textually between the
+last `b.Err()` before the return and the return; the list is empty.  In particular the two `return …, nil` of today
+(writeDescriptor's early return for an empty body, writePSIData's final return) come after an explicit check of the
+batch error, and the one-byte stuffing path of writePacketAdaptationField returns the batch error itself.  (The
+informative list `batchNilReturns` of all such returns, with the number of writes before them, is no longer pinned:
+it changes under harmless refactorings.) -/
+theorem batch_errors_returned : Generated.Facts.batchNilReturnsUnchecked = [] := by
   decide
 
 def exDemux : Demux := { r := { data := [0x47, 1, 2, 3, 4, 5], faultAt := some 3 }, packetSize := some 4 }
